@@ -42,7 +42,8 @@ def xsltStep (mask : Nat) : List String → String
 
 /-! `core <id> <xsl> <xml> D <doc> ; <stylesheet>`: the stylesheet (inside the Core fragment) is run on the
 `Core` engine model with an oracle answered by `Spec.eval`; reply `ok <events>` when that equals `Spec.transform`
-as well, `core-ne-spec …` otherwise -/
+as well (`oki` when the stylesheet is inside the fragment of `core_refines_spec_total` and `Core.run` on the
+proved compiler's program `CoreSpec.compile ss` with the theorem's oracle `CoreSpec.oracleOf` gives the same tree too), `core-ne-spec …` / `core-inst-ne-spec …` otherwise -/
 def coreStep : List String → String
   | _id :: _xsl :: _xml :: "D" :: rest =>
     match parseDoc rest with
@@ -56,7 +57,14 @@ def coreStep : List String → String
         | some P =>
           let O := Driver.C01Core.oracle ss doc
           match Core.run P O 300000 (Driver.C01Core.rootTemplate ss doc) (0, 1, 1), transform ss doc fuel with
-          | some evs, some sp => if evs = sp then "ok " ++ showEvs evs else "core-ne-spec " ++ showEvs evs ++ " ## " ++ showEvs sp
+          | some evs, some sp =>
+            if evs ≠ sp then "core-ne-spec " ++ showEvs evs ++ " ## " ++ showEvs sp
+            else if Driver.C01Core.narrow ss then
+              -- inside the fragment of `core_refines_spec_total`: the conclusion of the theorem, evaluated
+              (match Driver.C01Core.runInstantiated ss doc 300000 with
+               | some ev2 => if ev2 = sp then "oki " ++ showEvs evs else "core-inst-ne-spec " ++ showEvs ev2 ++ " ## " ++ showEvs sp
+               | none => "err core-inst-not-finished")
+            else "ok " ++ showEvs evs
           | none, _ => "err core-not-finished"
           | _, none => "err spec-undefined"
   | _ => "err bad-request"
